@@ -32,9 +32,8 @@ Definition end_ok (vs : vars) (fin : list Z) : bool :=
    (ledger_obs order, then misaligned), has_value/operator bool disagreement flag, the same for std::optional.
    Verdicts: 0 = implementation = model, std::optional = specification, property holds on the implementation's output
              1 = property holds but model or specification differ from what ran
-             2 = property fails on the implementation's output (outside the known finding's domain)
-             3 = the case is not a valid program (driver error)
-             4 = the lifetime part fails and the sequence moves from an engaged OpResult (finding move-leaks-moved-from) *)
+             2 = property fails on the implementation's output (optional semantics, or unbalanced lifetimes)
+             3 = the case is not a valid program (driver error) *)
 Definition judge_c40 (c : nat * list op * list obs * list Z * bool * list vars * list Z) : Z :=
   let '(nv, ops, impl, impl_final, flag, optl, opt_final) := c in
   match trace (init nv) ops, spec_trace (repeat None nv) ops with
@@ -46,13 +45,12 @@ Definition judge_c40 (c : nat * list op * list obs * list Z * bool * list vars *
       (* the reference: std::optional behaves as the specification, and its own payload is balanced *)
       let opt_ok := list_eqb vars_eqb st optl &&
                     end_ok (last optl []) opt_final in
-      if negb refines then 2
-      else if negb life then (if has_engaged_move (init nv) ops then 4 else 2)
+      if negb refines || negb life then 2
       else if agrees && opt_ok then 0 else 1
   | _, _ => 3
   end.
 
-(* is the case inside the finding's domain?  (reported as coverage) *)
+(* does the case move an engaged value (where OpResult and std::optional legitimately differ)?  (reported as coverage) *)
 Definition in_domain_c40 (c : nat * list op) : Z :=
   if has_engaged_move (init (fst c)) (snd c) then 1 else 0.
 
